@@ -66,7 +66,7 @@ def gen_cases(run):
     rng = run.rng
     quick = run.tier == "quick"
     n_ast = 300 if quick else 8000
-    n_prog = 90 if quick else 1500
+    n_prog = 90 if quick else 600
     g = X.Gen(rng, "all")
     cases = list(CORPUS) + sort_probe(rng)
     for e in X.builtin_sweep(rng, 4 if quick else 40):
